@@ -108,7 +108,7 @@ def forms(rng, query):
     xs = [float(v) for v in query[1]]
     idx = list(range(100, 100 + len(xs)))
     rng.shuffle(idx)
-    return [("list", list(xs)), ("ndarray", np.array(xs)), ("Series", pd.Series(xs, index=idx))]
+    return [("list", list(xs)), ("ndarray", np.array(xs)), ("Series", pd.Series(xs, index=idx, dtype=float))]
 
 
 def dy(rng, lo, hi, den):
@@ -768,7 +768,9 @@ def run(ctx):
             nontriv = ("arg_form" in d and d["arg_form"] not in ("float", "np.float64", "none")) or \
                 d.get("branch") == "array" or "form" in d or "mixture" in d["fn"] or "molar" in d["fn"]
             ctx.case({k: v for k, v in d.items()}, bool(nontriv))
+        t1 = __import__("time").time()
         r = evaluate(ctx, gname, cs.items)
+        ctx.extra.setdefault("timing", {})[gname] = round(__import__("time").time() - t1, 1)
         if r is None:
             continue
         bad, total = r
@@ -783,7 +785,9 @@ def run(ctx):
             import traceback
             ctx.broken("harness", "monitor %s" % mname, traceback.format_exc()[-1200:])
             continue
+        t1 = __import__("time").time()
         r = evaluate(ctx, mname, items, mode="close", tol=tol, chunk=150)
+        ctx.extra.setdefault("timing", {})[mname] = (len(items), round(__import__("time").time() - t1, 1))
         if r is None:
             continue
         bad, total = r
